@@ -536,7 +536,10 @@ def ModelCreator(
     model_parameters = solara.use_reactive(model_parameters)
 
     solara.use_effect(
-        lambda: _check_model_params(model.value.__class__.__init__, fixed_params),
+        # the model is instantiated with the fixed and the user-adjustable parameters
+        lambda: _check_model_params(
+            model.value.__class__.__init__, {**fixed_params, **user_params}
+        ),
         [model.value],
     )
     user_params, fixed_params = split_model_params(user_params)
